@@ -28,3 +28,16 @@ UNITS = {
     'BO_putUnsigned': u('putUnsigned', 3, True),
     'BO_putLong': u('putLong', 3, True),
 }
+
+# the type word and the SRID word of the writer (src/io/WKBWriter.cpp): flavour-dependent dimension flags (extended: 0x80000000 Z,
+# 0x40000000 M, 0x20000000 SRID; ISO: +1000 Z, +2000 M) and the condition under which the SRID is emitted.  C09.GenPreludeWW: the
+# writer object is the record of the members these functions read plus the list of words handed to writeInt; the flavour
+# enumerators are probed from the source.  C09/WWProofs.v proves the emitted words equal to WKBDefs.type_word / the SRID clause.
+WW = 'src/io/WKBWriter.cpp'
+WWC = {'wkbExtended': 'geos::io::WKBConstants::wkbExtended', 'wkbIso': 'geos::io::WKBConstants::wkbIso'}
+UNITS.update({
+    'WW_writeGeometryType': dict(src=WW, qual='geos::io::WKBWriter::writeGeometryType', nparams=2, imports=['C09.GenPreludeWW'], imports_last=True,
+                                 gname='g_writeGeometryType', enum_scopes=WWC, int_model=True),
+    'WW_writeSRID': dict(src=WW, qual='geos::io::WKBWriter::writeSRID', nparams=1, imports=['C09.GenPreludeWW'], imports_last=True,
+                         gname='g_writeSRID', enum_scopes=WWC, int_model=True),
+})
